@@ -97,5 +97,6 @@ COMPONENTS = {
     "real": ["tantivy src/** (IndexWriter, SegmentUpdater, merger, ManagedDirectory, FooterProxy, IndexReader, default Directory::acquire_lock, WatchCallbackList, FutureResult)",
              "tantivy-common, -columnar, -sstable, -stacker, -bitpacker, ownedbytes, tokenizer-api, query-grammar"],
     "stub": ["std::sync / std::thread -> shuttle models", "crossbeam-channel, rayon (ThreadPool), oneshot, census, arc-swap -> shims on shuttle primitives",
-             "MmapDirectory + kernel + disk -> SimDirectory"],
+             "MmapDirectory + kernel + disk -> SimDirectory (its storage contract and its flock-based lock contract are checked "
+             "separately on the real MmapDirectory under strace: adjuncts of C01 and C18)"],
 }
